@@ -57,6 +57,58 @@ pub fn replay(cases_path: &str, out: &str) {
                                                          json!({"case": case, "got_len": got.len(), "want_len": want.len(), "got_head": got.iter().take(6).collect::<Vec<_>>()})),
                     _ => {}
                 }
+                // the same listing consumed through the other entry points of the Iterator trait (all bounded by take)
+                let cnt = want.len();
+                let mk = || iter_permutations(s.clone());
+                let views = catch(|| {
+                    let mut bad: Vec<String> = vec![];
+                    for k in [0usize, 1, 2, cnt.saturating_sub(1), cnt, cnt + 1] {
+                        if mk().nth(k) != want.get(k).cloned() {
+                            bad.push(format!("nth({})", k));
+                        }
+                        if mk().skip(k).take(cnt + 2).collect::<Vec<_>>() != want.iter().skip(k).cloned().collect::<Vec<_>>() {
+                            bad.push(format!("skip({})", k));
+                        }
+                        // nth in the middle of the listing, and what follows it
+                        let mut it = mk();
+                        it.next();
+                        let got = it.nth(k);
+                        // (an iterator is not polled again once it has returned None: it need not be fused)
+                        let rest: Vec<Vec<i64>> = if got.is_some() { it.take(cnt + 2).collect() } else { vec![] };
+                        if got != want.get(k + 1).cloned() || rest != want.iter().skip(k + 2).cloned().collect::<Vec<_>>() {
+                            bad.push(format!("next(); nth({})", k));
+                        }
+                    }
+                    for st in [2usize, 3] {
+                        if mk().step_by(st).take(cnt + 2).collect::<Vec<_>>() != want.iter().step_by(st).cloned().collect::<Vec<_>>() {
+                            bad.push(format!("step_by({})", st));
+                        }
+                    }
+                    for taken in [0usize, 1, 2, 3, cnt] {
+                        if taken > cnt {
+                            continue;
+                        }
+                        let mut it = mk();
+                        for _ in 0..taken {
+                            it.next();
+                        }
+                        let w = if taken >= cnt { None } else { want.last().cloned() };
+                        if it.last() != w {
+                            bad.push(format!("last() after {} items", taken));
+                        }
+                    }
+                    if mk().take(cnt + 2).count() != cnt {
+                        bad.push("count".into());
+                    }
+                    bad
+                });
+                v.checks += 1;
+                match views {
+                    Err(m) => v.mismatch("iter.iter_permutations: panic", json!({"case": case, "panic": m, "through": "nth / skip / step_by / last"})),
+                    Ok(bad) if !bad.is_empty() => v.mismatch("iter.iter_permutations: not each distinct arrangement once in lexicographic order",
+                                                             json!({"case": case, "entry_points_that_disagree": bad})),
+                    _ => {}
+                }
             }
             "grid" => {
                 let (n, m, i, j) = (getu(&case, "n"), getu(&case, "m"), getu(&case, "i"), getu(&case, "j"));
